@@ -145,6 +145,46 @@ Proof.
     destruct Hsym as [Hs|Hs]; auto. rewrite Hs. exact Hp.
 Qed.
 
+Lemma read_token_shifts s s' : read_token tb s = Some s' ->
+  shifts s' = shifts s /\ rec_shifts s' = rec_shifts s.
+Proof.
+  unfold read_token. destruct (negb (qla s =? -1)%Z).
+  - intros H; inversion H; auto.
+  - unfold lex_read. destruct (input s) as [|ty rest].
+    + simpl. intros H; inversion H; auto.
+    + cbv beta iota zeta. destruct (ty =? ERROR)%Z.
+      * match goal with |- context [make_error tb ?x] => destruct (make_error tb x) end;
+          intros H; inversion H; auto.
+      * intros H; inversion H; auto.
+Qed.
+
+Lemma skip_errors_shifts f : forall s s1, skip_errors tb f s = Continue s1 ->
+  shifts s1 = shifts s /\ rec_shifts s1 = rec_shifts s.
+Proof.
+  induction f as [|f IH]; intros s s1 H; [discriminate|]. cbn [skip_errors] in H.
+  destruct (la s =? ERROR)%Z.
+  - destruct (read_token tb s) as [s'|] eqn:E; [|discriminate].
+    destruct (IH _ _ H) as [H1 H2]. destruct (read_token_shifts _ _ E) as [H3 H4]. split; congruence.
+  - inversion H; auto.
+Qed.
+
+Lemma drop_if_stuck_stack f s s1 : drop_if_stuck tb f s = Continue s1 -> stack s1 = stack s.
+Proof.
+  unfold drop_if_stuck. destruct (shifts s =? rec_shifts s)%Z.
+  - destruct (la s =? EOF)%Z; [discriminate|].
+    destruct (read_token tb s) as [s'|] eqn:E; [|discriminate]. intros H.
+    rewrite (skip_errors_stack _ _ _ H). eapply read_token_stack; eauto.
+  - intros H; inversion H; reflexivity.
+Qed.
+
+(* nothing is dropped when a token was shifted since the last recovery; in
+   particular at the first recovery of a run, where rec_shifts = -1 *)
+Lemma drop_if_stuck_idle f s : shifts s <> rec_shifts s -> drop_if_stuck tb f s = Continue s.
+Proof.
+  intros H. unfold drop_if_stuck.
+  destruct (shifts s =? rec_shifts s)%Z eqn:E; [apply Z.eqb_eq in E; contradiction|reflexivity].
+Qed.
+
 Theorem recover_reports f s s1 : recover tb f s = Continue s1 ->
   exists e0, recover_errsym s = Some e0 /\ la s1 = ERROR /\
     (lasym s1 = e0 \/ exists it, In it (stack s) /\ i_sym it = lasym s1 /\ is_verr (lasym s1)).
@@ -152,8 +192,29 @@ Proof.
   unfold recover. fold (recover_errsym s). intros H.
   destruct (recover_errsym s) as [e0|]; [|discriminate].
   destruct (skip_errors tb f s) as [s0| | | |] eqn:E; try discriminate.
-  exists e0. split; auto. rewrite <- (skip_errors_stack _ _ _ E).
+  destruct (drop_if_stuck tb f s0) as [s2| | | |] eqn:E2; try discriminate.
+  exists e0. split; auto. rewrite <- (skip_errors_stack _ _ _ E), <- (drop_if_stuck_stack _ _ _ E2).
   eapply recover_outer_errsym; eauto.
+Qed.
+
+(* when a token was shifted since the last recovery (always the case at the
+   first recovery) _recover is: skip ERROR lookaheads, then search *)
+Lemma recover_first f s : shifts s <> rec_shifts s ->
+  recover tb f s =
+  match recover_errsym s with
+  | None => Crash
+  | Some e =>
+    match skip_errors tb f s with
+    | Continue s1 => recover_outer tb f e s1
+    | o => o
+    end
+  end.
+Proof.
+  intros H. unfold recover. fold (recover_errsym s).
+  destruct (recover_errsym s) as [e|]; auto.
+  destruct (skip_errors tb f s) as [s1| | | |] eqn:E; auto.
+  destruct (skip_errors_shifts _ _ _ E) as [H1 H2].
+  rewrite drop_if_stuck_idle by congruence. reflexivity.
 Qed.
 
 (* ---------- R7: fuel monotonicity ---------- *)
@@ -212,13 +273,25 @@ Proof.
     destruct (la s =? EOF)%Z; auto. destruct (read_token tb s); auto. apply IH; auto; lia.
 Qed.
 
+Lemma drop_if_stuck_mono f1 f2 s o : f1 <= f2 -> o <> Fuel ->
+  drop_if_stuck tb f1 s = o -> drop_if_stuck tb f2 s = o.
+Proof.
+  intros Hle Ho H. unfold drop_if_stuck in *.
+  destruct (shifts s =? rec_shifts s)%Z; auto.
+  destruct (la s =? EOF)%Z; auto.
+  destruct (read_token tb s); auto. eapply skip_errors_mono; eauto.
+Qed.
+
 Lemma recover_mono f1 f2 s o : f1 <= f2 -> o <> Fuel ->
   recover tb f1 s = o -> recover tb f2 s = o.
 Proof.
   intros Hle Ho H. unfold recover in *.
   destruct (match lasym s with VErr _ _ => Some (lasym s) | _ => make_error tb s end) as [e|]; auto.
   destruct (skip_errors tb f1 s) as [s1| | | |] eqn:E;
-    try (apply (skip_errors_mono f1 f2) in E; [rewrite E|exact Hle|discriminate]); auto.
+    try (apply (skip_errors_mono f1 f2) in E; [rewrite E|exact Hle|discriminate]); auto;
+    [|congruence].
+  destruct (drop_if_stuck tb f1 s1) as [s2| | | |] eqn:E2;
+    try (apply (drop_if_stuck_mono f1 f2) in E2; [rewrite E2|exact Hle|discriminate]); auto.
   - eapply recover_outer_mono; eauto.
   - congruence.
 Qed.
